@@ -189,7 +189,7 @@ PROPS["C05"] = {
     "verus": ["pushdown"],
     "kani": ["optimizer_helpers"],
     "level": "proof",
-    "level_text": "Index remapping of the optimizer, the mechanism C05 names: (1) Verus, unbounded, on Optimizer::pushdown_filters, right_pushdown_offset and nth_non_key_column sliced from /repo each run — at the right-push site the pushed predicate reads, for every tested column, the right-input column that the join output (left ++ right non-key columns) shows at that position; (2) Kani on the real adjust_predicate_columns / get_predicate_columns for 26 scalar predicate variants over the full range of columns/offsets/constants (these are the contracts the Verus unit assumes) and on remap_projection_for_join_flatmap (BOUNDED: left<=3, right arity 4). The other rewrite passes (fuse_*, eliminate_*, join reordering, boolean specialization) and the statement 'every rewrite denotes the same relation' are not decided. BOUNDED stand-in on the whole pipeline (not counted as proved): 26 programs x 7 optimizer configurations must return the same relation; one program fails on the pinned code (known finding: join planning conflates same-head rules).",
+    "level_text": "Index remapping of the optimizer, the mechanism C05 names: (1) Verus, unbounded, on Optimizer::pushdown_filters, right_pushdown_offset and nth_non_key_column sliced from /repo each run — at the right-push site the pushed predicate reads, for every tested column, the right-input column that the join output (left ++ right non-key columns) shows at that position; (2) Kani on the real adjust_predicate_columns / get_predicate_columns for 26 scalar predicate variants over the full range of columns/offsets/constants (these are the contracts the Verus unit assumes) and on remap_projection_for_join_flatmap (BOUNDED: left<=3, right arity 4). The other rewrite passes (fuse_*, eliminate_*, join reordering, boolean specialization) and the statement 'every rewrite denotes the same relation' are not decided. BOUNDED stand-in on the whole pipeline (not counted as proved): 26 programs x 7 optimizer configurations must return the same relation (it found the join-planning defect over same-head rules that was repaired).",
     "level_note": "trusted: Verus+Z3, Kani+CBMC; the Join output layout (left ++ right non-key columns) is the contract taken from code_generator's join; output_schema().len() < 2^31; slice::contains is membership; HashMap-carrying predicate variants (ColumnCompareArith, ArithCompareConst) are outside the Kani harnesses; termination of pushdown_filters not proved",
     "technique": "Verus contracts + program-point obligation on functions extracted from /repo each run (erasure-checked, two listed closure-pattern substitutions); Kani harnesses for the assumed helper contracts; plus always-run bounded stand-in tests on the real code for the clauses outside both verifiers (labelled bounded, never counted as proved)",
     "aux_failure": "violation",
